@@ -96,12 +96,12 @@ def analyse(ctx, case, run, S):
             ok = len(st['rekeys']) == 1 and st['rekeys'][0]['label'] == 'witness' and [lv.piece_desc(p) for p in st['rekeys'][0]['pieces']] == want \
                 and st['rekeys'][0]['len'] == m * (8 + 32 * x)
             ctx.expect(ok, 'C14:witness-not-keyed', '%s run %d: the RNG state of %s is not rekeyed with the serialised witness LE64(v_j)|r_j,0..|.. of every opening' % (case['name'], ri, cname),
-                       cfg, 'nonce_shared_across_runs', rcfg)
+                       cfg, 'nonce_hedge_broken', rcfg)
             # the state is built from the CURRENT transcript: it contains every prover message sent so far
             sent = [e['label'] for _, e in lv.appends(st['log']) if e['label'] in ('A', 'L', 'R', 'A1', 'B')]
             exp = sent_before[vn]
             ctx.expect(len(sent) == exp, 'C14:stale-transcript', '%s run %d: %s is drawn from a state that absorbed %d prover messages, %d had been sent' % (case['name'], ri, cname, len(sent), exp),
-                       cfg, 'nonce_shared_across_runs', rcfg)
+                       cfg, 'nonce_hedge_broken', rcfg)
             # ... and determines every blinding factor of the witness (two-copy injectivity query)
         states = sorted({rnd_info(run, vn)[0] for vn in names.values()})
         blind_atoms = set()
@@ -114,14 +114,14 @@ def analyse(ctx, case, run, S):
             for atom in sorted(blind_atoms):
                 asserts, atoms = inj.query(('rng', sid), {atom}, blind_atoms)
                 ctx.solve(S, 'log-injective', '%s run %d: RNG state %d determines blinding %s' % (case['name'], ri, sid, atom), asserts, cfg=cfg, key='C14:witness-not-keyed',
-                          pred='nonce_shared_across_runs', detail=rcfg)
+                          pred='nonce_hedge_broken', detail=rcfg)
     a, b = set(used[0].values()), set(used[1].values())
     if case['expect_shared']:
         la, lb = run.out['prove'][0]['proof']['pieces'], run.out['prove'][1]['proof']['pieces']
         ctx.expect(la == lb and a == b, 'C14:not-reproducible', '%s: identical runs produce different proofs' % case['name'], cfg, None)
     else:
         ctx.expect(not (a & b), 'C14:nonce-shared:' + case['pairname'].split(',')[0].split(' (')[0],
-                   '%s: the two runs share the nonces %s' % (case['name'], sorted(k for k, v in used[0].items() if v in b)[:4]), cfg, 'nonce_shared_across_runs', rcfg)
+                   '%s: the two runs share the nonces %s' % (case['name'], sorted(k for k, v in used[0].items() if v in b)[:4]), cfg, 'nonce_hedge_broken', rcfg)
     if len(ctx.case_samples) < 2:
         ctx.case_samples.append({'scenario': cfg, 'rng_nonces_run0': used[0]})
 
